@@ -253,8 +253,11 @@ def run(res, tier):
     # ---- ONCE (c): a returned depth below the child's own depth means "do not go on with this child" (RemoveDataCallback: "no sense in recursing down a node that we're going to delete",
     # PassMessageCallbackAux: "leave this session's subtree"): after such a result no further callback or recursion may happen for the same child
     ev = []
+    # the callback invocation may sit in a private helper that returns the callback's answer (msa/ip.py): the call of that helper is then the event
+    ev_nodes = [top for (top, leaves) in IP.may_sites(fx, cc, lambda n0: n0.is_call() and re.search(r'::(CallCallbackMethod|DoTraversalAux)$', n0.get('q') or '') is not None,
+                                                      r'^muscle::StorageReflectSession::NodePathMatcher::(?!DoTraversalAux$)')]
     for n_ in cc.walk():
-        if n_.is_call() and re.search(r'::(CallCallbackMethod|DoTraversalAux)$', n_.get('q') or ''):
+        if any(n_ is e_ for e_ in ev_nodes):
             holder = None
             for v in cc.walk():
                 if v['k'] == 'VarDecl' and v['ch'] and any(x is n_ for x in v['ch'][0].walk()):
@@ -363,10 +366,24 @@ def run(res, tier):
     vds = [v for v in f.walk() if v['k'] == 'VarDecl' and re.search(r'StringMatcher \*$', v.type().strip()) and C.dominates(f, v['i'], fs['i'])]
     ok = False
     how = None
+    f_scan, avoid_scan = f, (P.pos_of(f, fs)[0],)
+    if not vds:
+        # the per-table scan was extracted into a helper that answers "some parser needs pattern matching": the flag is set on its true result, so inside the helper the
+        # `return true` statements play the role of the flag assignment
+        for (cn, t) in G.atoms_at(f, fs):
+            core, pol = A.bool_polarity(cn, t)
+            h_ = IP.helper_of(fx, core, r'.') if core.is_call() and pol else None
+            if h_ is not None:
+                hv = [v for v in h_.walk() if v['k'] == 'VarDecl' and re.search(r'StringMatcher \*$', v.type().strip())]
+                rt = [r_ for r_ in h_.walk() if r_['k'] == 'ReturnStmt' and r_['ch'] and A.strip_casts(r_['ch'][0]).get('v') == 1]
+                if hv and rt:
+                    vds, f_scan, avoid_scan = hv, h_, tuple(P.pos_of(h_, r_)[0] for r_ in rt if P.pos_of(h_, r_))
+    f_outer = f
+    f = f_scan
     if vds:
         vd = vds[0]
         # all exits of the scan that do not set the flag: enumerate paths from the VarDecl to the flag-set block's sibling (the inner loop increment)
-        fb = P.pos_of(f, fs)[0]
+        fb = avoid_scan[0]
         # successor blocks reachable from vd without passing fb, at the first join (= inner-loop increment block): take the immediate postdominator approximated as
         # the unique successor of fb's `break`... simpler: enumerate paths from vd to every block that is a loop back-edge source, avoiding fb
         ok = True
@@ -376,7 +393,7 @@ def run(res, tier):
                 continue
             for b in body:
                 if header in [s for s in f.blocks[b].succ if s is not None and s >= 0] and b != P.pos_of(f, vd)[0]:
-                    paths, complete = C.paths_between(f, P.pos_of(f, vd), (b, 0), avoid_blocks=(fb,))
+                    paths, complete = C.paths_between(f, P.pos_of(f, vd), (b, 0), avoid_blocks=avoid_scan)
                     for asg in paths:
                         # only paths that stay inside this loop body
                         npaths += 1
@@ -396,6 +413,7 @@ def run(res, tier):
         how = '%d scan paths that leave the flag unset; each has IsPatternUnique() or IsPatternListOfUniqueValues() true' % npaths
         if npaths == 0:
             ok = False
+    f = f_outer
     res.ob('UNIQUE-AGREE', f.where(fs), 'the scan leaves parsersHaveWildcards unset only for matchers with IsPatternUnique() or IsPatternListOfUniqueValues()', ok, how=how, function=f.q,
            key='UNIQUE-AGREE|%s|scan' % f.q,
            message='the wildcard scan can classify a level as wildcard-free although a matcher is neither unique nor a list of unique values: the traversal then visits fewer nodes than pattern matching would')
